@@ -1,37 +1,980 @@
-//! probe version
-use minijinja::value::Value;
+//! C12 harness: every case is one template rendered under the four undefined behaviours.
+//!
+//! Output of `gen <quick|thorough>`: one line per case, tab separated
+//!
+//!   <stream> <id> <label> <template> <chainable> <lenient> <semistrict> <strict> <prog>
+//!
+//! * result = `ok:<hex of the output>` | `err:<ErrorKind>` | `panic:<hex msg>`
+//! * `<prog>` = `-` or the token serialisation of (context, formatter flag, the REAL instruction
+//!   stream the compiler produced) that the Lean model driver executes (see `enc_prog`).
+//! * streams: `site` (documented site matrix; label = `<class>`), `fmt` (same through a custom
+//!   formatter), `prog` (generated programs of the core fragment), `call` (every builtin
+//!   filter/test/function with possibly-undefined operands in each argument position; label =
+//!   `<kind>:<name>:<what was substituted where>`), `sweep` (every builtin x small operand pool).
+//!
+//! `one <template>` replays a single template (context: the shared one) and prints the same line.
+//! `names` prints the builtin names the `call`/`sweep` streams cover (cross-checked by the check
+//! against defaults.rs).
+use minijinja::machinery::{get_compiled_template, Instruction};
+use minijinja::value::{Value, ValueKind};
 use minijinja::{context, Environment, UndefinedBehavior};
 use mjh::*;
+use std::fmt::Write as _;
+use std::io::Write as _;
 
-const MODES: [(&str, UndefinedBehavior); 4] = [
-    ("chainable", UndefinedBehavior::Chainable),
-    ("lenient", UndefinedBehavior::Lenient),
-    ("semistrict", UndefinedBehavior::SemiStrict),
-    ("strict", UndefinedBehavior::Strict),
+const MODES: [UndefinedBehavior; 4] = [
+    UndefinedBehavior::Chainable,
+    UndefinedBehavior::Lenient,
+    UndefinedBehavior::SemiStrict,
+    UndefinedBehavior::Strict,
 ];
 
-fn ctx() -> Value {
-    context! { i1 => 3, i2 => 7, s1 => "ab", l1 => vec![1,2,3], a => context!{ x => 1 }, n => () }
-}
-
-fn render(mode: UndefinedBehavior, src: &str) -> String {
-    let r = guarded(|| {
-        let mut env = Environment::new();
-        env.set_undefined_behavior(mode);
-        env.render_str(src, ctx())
-    });
-    match r {
-        Ok(Ok(s)) => format!("ok:{:?}", s),
-        Ok(Err(e)) => format!("err:{}", error_kind_name(&e)),
-        Err(p) => format!("panic:{}", p),
+/// context of the modelled streams (`site`, `fmt`, `prog`): only values the Lean model knows
+fn ctx_small() -> Value {
+    context! {
+        i1 => 3, i2 => 7, z => 0, s1 => "ab", s2 => "", s3 => "b", b1 => true, b0 => false, n => (),
+        l1 => vec![1, 2, 3], l0 => Vec::<i32>::new(), ls => vec!["b", "a"],
+        m1 => context!{ k => 1, n => context!{ q => "x" } },
+        a => context!{ x => 1 },
+        lm => vec![context!{ k => 1, v => "p" }, context!{ k => 2, v => "q" }, context!{ v => "r" }],
     }
 }
+
+/// richer context for the builtin streams
+fn ctx_big() -> Value {
+    context! {
+        i1 => 3, i2 => 7, z => 0, s1 => "ab", s2 => "", s3 => "b", b1 => true, b0 => false, n => (),
+        l1 => vec![1, 2, 3], l0 => Vec::<i32>::new(), ls => vec!["b", "a"],
+        m1 => context!{ k => 1, n => context!{ q => "x" } },
+        a => context!{ x => 1 },
+        lm => vec![context!{ k => 1, v => "p" }, context!{ k => 2, v => "q" }, context!{ v => "r" }],
+        f1 => 2.5, nl => "a\nb c", neg => -3, fmt => "%s-%s", html => "<a b>", sn => "42", sf => "4.5",
+    }
+}
+
+struct Envs {
+    envs: Vec<Environment<'static>>,
+    fmt_envs: Vec<Environment<'static>>,
+}
+
+fn mk_envs() -> Envs {
+    let mut envs = vec![];
+    let mut fmt_envs = vec![];
+    for m in MODES {
+        let mut e = Environment::new();
+        e.set_undefined_behavior(m);
+        envs.push(e);
+        let mut e = Environment::new();
+        e.set_undefined_behavior(m);
+        // a custom formatter (Emit then goes through Environment::format)
+        e.set_formatter(|out, state, value| minijinja::escape_formatter(out, state, value));
+        fmt_envs.push(e);
+    }
+    Envs { envs, fmt_envs }
+}
+
+fn render(env: &Environment, src: &str, ctx: &Value) -> String {
+    match guarded(|| env.render_str(src, ctx.clone())) {
+        Ok(Ok(s)) => format!("ok:{}", hex(s.as_bytes())),
+        Ok(Err(e)) => format!("err:{}", error_kind_name(&e)),
+        Err(p) => format!("panic:{}", hex(p.as_bytes())),
+    }
+}
+
+// ------------------------------------------------------------------------------------------
+// serialisation of values / instructions for the Lean driver
+
+fn hx(s: &str) -> String {
+    if s.is_empty() { "-".into() } else { hex(s.as_bytes()) }
+}
+
+fn is_silent(strict: &Environment, v: &Value) -> bool {
+    // a silent undefined prints under Strict, a default one does not
+    v.is_undefined() && strict.render_str("{{ v }}", context! { v => v.clone() }).is_ok()
+}
+
+/// `None` = outside the model's value domain
+fn enc_value(strict: &Environment, v: &Value, out: &mut String) -> Option<()> {
+    match v.kind() {
+        ValueKind::Undefined => out.push_str(if is_silent(strict, v) { "S" } else { "U" }),
+        ValueKind::None => out.push('N'),
+        ValueKind::Bool => out.push(if v.is_true() { 'T' } else { 'F' }),
+        ValueKind::Number => {
+            if !v.is_integer() {
+                return None;
+            }
+            let i = i64::try_from(v.clone()).ok()?;
+            write!(out, "I {}", i).unwrap();
+        }
+        ValueKind::String => {
+            let s = v.as_str()?;
+            if v.is_safe() || !s.chars().all(|c| c.is_ascii_alphanumeric() || " _.,:-".contains(c)) {
+                return None;
+            }
+            write!(out, "X {}", hx(s)).unwrap();
+        }
+        ValueKind::Seq => {
+            if v.is_tuple() {
+                return None;
+            }
+            let items: Vec<Value> = v.try_iter().ok()?.collect();
+            write!(out, "L {}", items.len()).unwrap();
+            for it in &items {
+                out.push(' ');
+                enc_value(strict, it, out)?;
+            }
+        }
+        ValueKind::Map => {
+            if v.is_kwargs() {
+                return None;
+            }
+            let keys: Vec<Value> = v.try_iter().ok()?.collect();
+            write!(out, "M {}", keys.len()).unwrap();
+            for k in &keys {
+                let ks = k.as_str()?;
+                write!(out, " {} ", hx(ks)).unwrap();
+                enc_value(strict, &v.get_item(k).ok()?, out)?;
+            }
+        }
+        _ => return None,
+    }
+    Some(())
+}
+
+const NON_CTX_NAMES: [&str; 9] = ["loop", "self", "super", "caller", "varargs", "kwargs", "range", "dict", "namespace"];
+
+fn enc_instr(strict: &Environment, ins: &Instruction, out: &mut String) {
+    use Instruction as I;
+    let argc = |n: &Option<u16>| n.map(|x| x as i64).unwrap_or(-1);
+    match ins {
+        I::EmitRaw(s) => write!(out, "EmitRaw {}", hx(s)).unwrap(),
+        I::Emit => out.push_str("Emit"),
+        I::StoreLocal(n) => write!(out, "StoreLocal {}", hx(n)).unwrap(),
+        I::Lookup(n) => {
+            if NON_CTX_NAMES.contains(n) || *n == "debug" {
+                write!(out, "Unsupported Lookup-{}", n).unwrap()
+            } else {
+                write!(out, "Lookup {}", hx(n)).unwrap()
+            }
+        }
+        I::GetAttr(n) => write!(out, "GetAttr {}", hx(n)).unwrap(),
+        I::GetItem => out.push_str("GetItem"),
+        I::Slice => out.push_str("Slice"),
+        I::LoadConst(v) => {
+            let mut s = String::new();
+            match enc_value(strict, v, &mut s) {
+                Some(()) => write!(out, "LoadConst {}", s).unwrap(),
+                None => out.push_str("Unsupported LoadConst"),
+            }
+        }
+        I::BuildList(Some(n)) => write!(out, "BuildList {}", n).unwrap(),
+        I::BuildList(None) => out.push_str("BuildListDyn"),
+        I::Neg => out.push_str("Neg"),
+        I::BuildMap(n) => write!(out, "BuildMap {}", n).unwrap(),
+        I::Add => out.push_str("Add"),
+        I::Sub => out.push_str("Sub"),
+        I::Mul => out.push_str("Mul"),
+        I::Eq => out.push_str("Eq"),
+        I::Ne => out.push_str("Ne"),
+        I::Gt => out.push_str("Gt"),
+        I::Gte => out.push_str("Gte"),
+        I::Lt => out.push_str("Lt"),
+        I::Lte => out.push_str("Lte"),
+        I::Not => out.push_str("Not"),
+        I::StringConcat => out.push_str("StringConcat"),
+        I::In => out.push_str("In"),
+        I::CompareAndPreserve(op) => {
+            let j = serde_json::to_string(op).unwrap();
+            write!(out, "CompareAndPreserve {}", j.trim_matches('"')).unwrap()
+        }
+        I::ApplyFilter(n, a, _) if argc(a) >= 0 => write!(out, "ApplyFilter {} {}", hx(n), argc(a)).unwrap(),
+        I::PerformTest(n, a, _) if argc(a) >= 0 => write!(out, "PerformTest {} {}", hx(n), argc(a)).unwrap(),
+        I::PushLoop(flags) => {
+            if flags & 2 != 0 {
+                out.push_str("Unsupported PushLoop-recursive")
+            } else {
+                out.push_str("PushLoop")
+            }
+        }
+        I::Iterate(t) => write!(out, "Iterate {}", t).unwrap(),
+        I::PushDidNotIterate => out.push_str("PushDidNotIterate"),
+        I::PopFrame => out.push_str("PopFrame"),
+        I::PopLoopFrame => out.push_str("PopLoopFrame"),
+        I::PushWith => out.push_str("PushWith"),
+        I::Jump(t) => write!(out, "Jump {}", t).unwrap(),
+        I::JumpIfFalse(t) => write!(out, "JumpIfFalse {}", t).unwrap(),
+        I::JumpIfFalseOrPop(t) => write!(out, "JumpIfFalseOrPop {}", t).unwrap(),
+        I::JumpIfTrueOrPop(t) => write!(out, "JumpIfTrueOrPop {}", t).unwrap(),
+        I::BeginCapture(_) => {
+            let j = serde_json::to_string(ins).unwrap_or_default();
+            if j.contains("\"Capture\"") {
+                out.push_str("BeginCapture")
+            } else {
+                out.push_str("Unsupported BeginCapture-Discard")
+            }
+        }
+        I::EndCapture => out.push_str("EndCapture"),
+        I::DupTop => out.push_str("DupTop"),
+        I::DiscardTop => out.push_str("DiscardTop"),
+        I::Swap => out.push_str("Swap"),
+        other => {
+            let j = serde_json::to_value(other).ok();
+            let name = j
+                .as_ref()
+                .and_then(|v| v.get("op"))
+                .and_then(|v| v.as_str())
+                .unwrap_or("unknown")
+                .to_string();
+            write!(out, "Unsupported {}", name).unwrap()
+        }
+    }
+}
+
+/// `C <ctx value> F <0|1> N <count> <instr>…` or `-` when the template does not compile
+fn enc_prog(envs: &Envs, src: &str, ctx: &Value, custom_fmt: bool) -> String {
+    let strict = &envs.envs[3];
+    let r = guarded(|| {
+        let tmpl = match strict.template_from_str(src) {
+            Ok(t) => t,
+            Err(_) => return None,
+        };
+        let compiled = get_compiled_template(&tmpl);
+        if !compiled.blocks.is_empty() {
+            return None;
+        }
+        let mut out = String::from("C ");
+        enc_value(strict, ctx, &mut out)?;
+        write!(out, " F {}", custom_fmt as u8).unwrap();
+        let mut n = 0u32;
+        let mut body = String::new();
+        while let Some(ins) = compiled.instructions.get(n) {
+            body.push(' ');
+            enc_instr(strict, ins, &mut body);
+            n += 1;
+        }
+        write!(out, " N {}{}", n, body).unwrap();
+        Some(out)
+    });
+    match r {
+        Ok(Some(s)) => s,
+        _ => "-".into(),
+    }
+}
+
+fn emit(w: &mut impl std::io::Write, envs: &Envs, stream: &str, id: usize, label: &str, src: &str, ctx: &Value, model: bool) {
+    debug_assert!(!src.contains('\t') && !src.contains('\n'));
+    let es = if stream == "fmt" { &envs.fmt_envs } else { &envs.envs };
+    let rs: Vec<String> = es.iter().map(|e| render(e, src, ctx)).collect();
+    let prog = if model { enc_prog(envs, src, ctx, stream == "fmt") } else { "-".into() };
+    writeln!(w, "{}\t{}\t{}\t{}\t{}\t{}", stream, id, label, src, rs.join("\t"), prog).unwrap();
+}
+
+// ------------------------------------------------------------------------------------------
+// documented site matrix: (class, template).  Classes (judged by the check's oracle):
+//   print / iterate : fail under SemiStrict+Strict, otherwise ok
+//   truth           : fail under Strict only
+//   access          : fail everywhere except Chainable
+//   never           : ok in all four modes
+//   model           : not named by the property statement (string coercion, comparisons, `in`,
+//                     slices, silent undefined, filters): only monotonicity and the Lean model
+// The expected *output* of the ok modes is the second component.
+const SITES: &[(&str, &str, &str)] = &[
+    ("print", "[{{ u }}]", "[]"),
+    ("print", "{{ u }}{{ i1 }}", "3"),
+    ("print", "{% set y = u %}[{{ y }}]", "[]"),
+    ("print", "{% with y = u %}[{{ y }}]{% endwith %}", "[]"),
+    ("print", "[{{ a.b }}]", "[]"),
+    ("print", "[{{ a['b'] }}]", "[]"),
+    ("print", "[{{ l1[9] }}]", "[]"),
+    ("print", "[{{ n.x }}]", "[]"),
+    ("print", "[{{ i1.x }}]", "[]"),
+    ("print", "[{{ s1.x }}]", "[]"),
+    ("print", "[{{ u and i1 }}]", "[]"),
+    ("print", "[{{ u if b1 else 1 }}]", "[]"),
+    ("model", "[{{ u ~ 1 }}]", "[1]"),
+    ("model", "[{{ 1 ~ u }}]", "[1]"),
+    ("model", "[{{ u|string }}]", "[]"),
+    ("model", "[{{ u|upper }}]", "[]"),
+    ("model", "[{{ u|int }}]", "[0]"),
+    ("iterate", "[{% for x in u %}x{% endfor %}]", "[]"),
+    ("iterate", "[{% for x in u %}x{% else %}e{% endfor %}]", "[e]"),
+    ("iterate", "[{% for x in a.b %}x{% endfor %}]", "[]"),
+    ("iterate", "[{% for x in u if x %}x{% endfor %}]", "[]"),
+    ("model", "[{{ u|list }}]", "[[]]"),
+    ("model", "[{{ 1 in u }}]", "[False]"),
+    ("model", "[{{ 1 not in u }}]", "[True]"),
+    ("model", "[{{ 1 is in u }}]", "[False]"),
+    ("model", "[{{ u|sum }}]", "[0]"),
+    ("model", "[{{ u|first }}]", "[]"),
+    ("model", "[{{ u|join(',') }}]", "[]"),
+    ("truth", "[{% if u %}1{% endif %}]", "[]"),
+    ("truth", "[{% if u %}1{% else %}0{% endif %}]", "[0]"),
+    ("truth", "[{% if i1 %}1{% elif u %}2{% endif %}{% if z %}1{% elif u %}2{% else %}3{% endif %}]", "[13]"),
+    ("truth", "[{{ not u }}]", "[True]"),
+    ("truth", "[{{ u or 1 }}]", "[1]"),
+    ("truth", "[{{ (u and 1) is undefined }}]", "[True]"),
+    ("truth", "[{{ 1 if u else 2 }}]", "[2]"),
+    ("truth", "[{{ 1 if u }}]", "[]"),
+    ("model", "[{{ u|bool }}]", "[False]"),
+    ("model", "[{{ i1|default(5, u) }}]", "[3]"),
+    ("truth", "[{% if a.b %}1{% endif %}]", "[]"),
+    ("model", "[{{ u[1:2] }}]", "[[]]"),
+    ("truth", "[{% for x in l1 if u %}x{% endfor %}]", "[]"),
+    ("access", "[{{ u.a }}]", "[]"),
+    ("access", "[{{ u[0] }}]", "[]"),
+    ("access", "[{{ u['a'] }}]", "[]"),
+    ("access", "[{{ u[i1] }}]", "[]"),
+    ("access", "[{{ u.a.b.c }}]", "[]"),
+    ("access", "[{{ a.b.c }}]", "[]"),
+    ("access", "[{{ a.b[0] }}]", "[]"),
+    ("access", "[{{ a['b']['c'] }}]", "[]"),
+    ("access", "[{{ m1.n.zz.q }}]", "[]"),
+    ("access", "[{{ l1[9].x }}]", "[]"),
+    ("access", "[{{ n.x.y }}]", "[]"),
+    ("access", "[{{ (1 if b0).x }}]", "[]"),
+    ("access", "[{{ (1 if b0)[0] }}]", "[]"),
+    ("access", "[{{ u|attr('a') }}]", "[]"),
+    ("access", "[{{ a.b|attr('c') }}]", "[]"),
+    ("access", "[{{ u|attr(0) }}]", "[]"),
+    ("access", "[{{ u.a is defined }}]", "[False]"),
+    ("access", "[{{ u.a|default(4) }}]", "[4]"),
+    ("access", "[{% if u.a %}1{% endif %}]", "[]"),
+    ("access", "[{% for x in u.a %}x{% endfor %}]", "[]"),
+    ("never", "[{{ u is defined }}]", "[False]"),
+    ("never", "[{{ u is undefined }}]", "[True]"),
+    ("never", "[{{ u is not defined }}]", "[True]"),
+    ("never", "[{{ a.b is defined }}]", "[False]"),
+    ("never", "[{{ a.b is undefined }}]", "[True]"),
+    ("never", "[{{ a.x is defined }}]", "[True]"),
+    ("never", "[{{ (1 if b0) is defined }}]", "[False]"),
+    ("never", "[{{ u|default(1) }}]", "[1]"),
+    ("never", "[{{ u|d(1) }}]", "[1]"),
+    ("never", "[{{ u|default }}]", "[]"),
+    ("never", "[{{ u|default('x', true) }}]", "[x]"),
+    ("never", "[{{ u|default(1, b0) }}]", "[1]"),
+    ("never", "[{{ a.b|default(2) }}]", "[2]"),
+    ("never", "[{{ (1 if b0)|default(3) }}]", "[3]"),
+    ("never", "[{{ s2|default(3, true) }}]", "[3]"),
+    ("never", "[{{ i1|default(1) }}]", "[3]"),
+    ("never", "[{% if u is defined %}1{% else %}0{% endif %}]", "[0]"),
+    ("never", "[{% set y = u %}{{ y is defined }}]", "[False]"),
+    ("never", "[{{ a|attr('b') is defined }}]", "[False]"),
+    ("model", "[{{ 1 if b0 }}]", "[]"),
+    ("model", "[{% for x in (1 if b0) %}x{% endfor %}]", "[]"),
+    ("model", "[{% if (1 if b0) %}1{% endif %}]", "[]"),
+    ("model", "[{{ not (1 if b0) }}]", "[True]"),
+    ("model", "[{{ (1 if b0) ~ 2 }}]", "[2]"),
+    ("model", "[{{ (1 if b0) == 2 }}]", "[False]"),
+    ("model", "[{{ 1 in (1 if b0) }}]", "[False]"),
+    ("model", "[{{ (1 if b0)|upper }}]", "[]"),
+    ("model", "[{{ (1 if b0)|int }}]", "[0]"),
+    ("model", "[{{ (1 if b0)|list }}]", "[[]]"),
+    ("model", "[{{ (1 if b0)|bool }}]", "[False]"),
+    ("model", "[{% set y = 1 if b0 %}{{ y }}]", "[]"),
+    ("model", "[{{ u == 1 }}]", "[False]"),
+    ("model", "[{{ 1 != u }}]", "[True]"),
+    ("model", "[{{ u < 1 }}]", "[True]"),
+    ("model", "[{{ 1 <= u }}]", "[False]"),
+    ("model", "[{{ u > 1 }}]", "[False]"),
+    ("model", "[{{ u >= u }}]", "[True]"),
+    ("model", "[{{ 0 < i1 < u }}]", "[False]"),
+    ("model", "[{{ u in l1 }}]", "[False]"),
+    ("model", "[{{ u not in l1 }}]", "[True]"),
+    ("model", "[{{ u + 1 }}]", ""),
+    ("model", "[{{ -u }}]", ""),
+    ("model", "[{{ u|length }}]", ""),
+    ("model", "[{{ u() }}]", ""),
+    ("model", "[{{ l1[u:2] }}]", ""),
+];
+
+// ------------------------------------------------------------------------------------------
+// builtins: name, kind, "good" positional args (arg 0 = the receiver for filters/tests), kwargs
+struct B {
+    kind: &'static str, // filter | test | function
+    name: &'static str,
+    args: &'static [&'static str],
+    kwargs: &'static [(&'static str, &'static str)],
+}
+const fn b(kind: &'static str, name: &'static str, args: &'static [&'static str], kwargs: &'static [(&'static str, &'static str)]) -> B {
+    B { kind, name, args, kwargs }
+}
+
+const BUILTINS: &[B] = &[
+    b("filter", "safe", &["s1"], &[]),
+    b("filter", "escape", &["html"], &[]),
+    b("filter", "e", &["html"], &[]),
+    b("filter", "lower", &["'aB'"], &[]),
+    b("filter", "upper", &["s1"], &[]),
+    b("filter", "title", &["'ab cd'"], &[]),
+    b("filter", "capitalize", &["s1"], &[]),
+    b("filter", "replace", &["'abcab'", "'ab'", "'x'"], &[]),
+    b("filter", "length", &["l1"], &[]),
+    b("filter", "count", &["s1"], &[]),
+    b("filter", "dictsort", &["m1"], &[("by", "'key'"), ("reverse", "b0"), ("case_sensitive", "b1")]),
+    b("filter", "items", &["m1"], &[]),
+    b("filter", "reverse", &["l1"], &[]),
+    b("filter", "trim", &["' ab '", "' '"], &[]),
+    b("filter", "join", &["l1", "','", "'k'"], &[]),
+    b("filter", "split", &["'a,b,c'", "','", "1"], &[]),
+    b("filter", "lines", &["nl"], &[]),
+    b("filter", "default", &["s2", "5", "b1"], &[]),
+    b("filter", "d", &["z", "5", "b1"], &[]),
+    b("filter", "round", &["f1", "1"], &[("method", "'floor'")]),
+    b("filter", "abs", &["neg"], &[]),
+    b("filter", "int", &["sn"], &[]),
+    b("filter", "float", &["sf"], &[]),
+    b("filter", "attr", &["m1", "'k'"], &[]),
+    b("filter", "first", &["l1"], &[]),
+    b("filter", "last", &["l1"], &[]),
+    b("filter", "min", &["l1"], &[]),
+    b("filter", "max", &["l1"], &[]),
+    b("filter", "sort", &["ls"], &[("reverse", "b1"), ("case_sensitive", "b0"), ("attribute", "'k'")]),
+    b("filter", "list", &["s1"], &[]),
+    b("filter", "string", &["i1"], &[]),
+    b("filter", "bool", &["i1"], &[]),
+    b("filter", "batch", &["l1", "2", "0"], &[]),
+    b("filter", "slice", &["l1", "2", "0"], &[]),
+    b("filter", "sum", &["l1"], &[]),
+    b("filter", "indent", &["nl", "2", "b1", "b1"], &[]),
+    b("filter", "select", &["l1", "'odd'"], &[]),
+    b("filter", "select", &["l1", "'gt'", "1"], &[]),
+    b("filter", "select", &["l1", "'=='", "1"], &[]),
+    b("filter", "select", &["l1", "'!='", "1"], &[]),
+    b("filter", "select", &["l1", "'<'", "2"], &[]),
+    b("filter", "select", &["l1", "'<='", "2"], &[]),
+    b("filter", "select", &["l1", "'>'", "2"], &[]),
+    b("filter", "select", &["l1", "'>='", "2"], &[]),
+    b("filter", "select", &["l1", "'in'", "l1"], &[]),
+    b("filter", "select", &["l1"], &[]),
+    b("filter", "reject", &["l1", "'odd'"], &[]),
+    b("filter", "reject", &["l1", "'divisibleby'", "2"], &[]),
+    b("filter", "selectattr", &["lm", "'k'", "'eq'", "1"], &[]),
+    b("filter", "selectattr", &["lm", "'k'"], &[]),
+    b("filter", "rejectattr", &["lm", "'k'", "'eq'", "1"], &[]),
+    b("filter", "map", &["lm"], &[("attribute", "'k'"), ("default", "0")]),
+    b("filter", "map", &["ls", "'upper'"], &[]),
+    b("filter", "map", &["ls", "'replace'", "'a'", "'x'"], &[]),
+    b("filter", "map", &["lm", "'attr'", "'k'"], &[]),
+    b("filter", "groupby", &["lm", "'v'"], &[("default", "0"), ("case_sensitive", "b1")]),
+    b("filter", "groupby", &["lm"], &[("attribute", "'v'")]),
+    b("filter", "unique", &["l1"], &[("case_sensitive", "b1"), ("attribute", "'k'")]),
+    b("filter", "chain", &["l1", "ls"], &[]),
+    b("filter", "zip", &["l1", "ls"], &[]),
+    b("filter", "pprint", &["m1"], &[]),
+    b("filter", "format", &["fmt", "1", "2"], &[]),
+    b("filter", "tojson", &["m1", "2"], &[]),
+    b("filter", "tojson", &["m1"], &[("indent", "2")]),
+    b("filter", "urlencode", &["'a b'"], &[]),
+    b("filter", "urlencode", &["m1"], &[]),
+    b("test", "undefined", &["i1"], &[]),
+    b("test", "defined", &["i1"], &[]),
+    b("test", "none", &["n"], &[]),
+    b("test", "safe", &["s1"], &[]),
+    b("test", "escaped", &["s1"], &[]),
+    b("test", "boolean", &["b1"], &[]),
+    b("test", "odd", &["i1"], &[]),
+    b("test", "even", &["i1"], &[]),
+    b("test", "divisibleby", &["i1", "3"], &[]),
+    b("test", "number", &["i1"], &[]),
+    b("test", "integer", &["i1"], &[]),
+    b("test", "int", &["i1"], &[]),
+    b("test", "float", &["f1"], &[]),
+    b("test", "string", &["s1"], &[]),
+    b("test", "sequence", &["l1"], &[]),
+    b("test", "iterable", &["l1"], &[]),
+    b("test", "mapping", &["m1"], &[]),
+    b("test", "startingwith", &["s1", "'a'"], &[]),
+    b("test", "endingwith", &["s1", "'b'"], &[]),
+    b("test", "lower", &["s1"], &[]),
+    b("test", "upper", &["s1"], &[]),
+    b("test", "sameas", &["b1", "b1"], &[]),
+    b("test", "eq", &["i1", "3"], &[]),
+    b("test", "equalto", &["i1", "3"], &[]),
+    b("test", "ne", &["i1", "3"], &[]),
+    b("test", "lt", &["i1", "5"], &[]),
+    b("test", "lessthan", &["i1", "5"], &[]),
+    b("test", "le", &["i1", "3"], &[]),
+    b("test", "gt", &["i1", "1"], &[]),
+    b("test", "greaterthan", &["i1", "1"], &[]),
+    b("test", "ge", &["i1", "3"], &[]),
+    b("test", "in", &["i1", "l1"], &[]),
+    b("test", "true", &["b1"], &[]),
+    b("test", "false", &["b0"], &[]),
+    b("test", "filter", &["'upper'"], &[]),
+    b("test", "test", &["'odd'"], &[]),
+    b("function", "range", &["1", "7", "2"], &[]),
+    b("function", "dict", &["m1"], &[("x", "i1")]),
+    b("function", "dict", &[], &[("x", "i1"), ("y", "s1")]),
+    b("function", "debug", &["i1"], &[]),
+    b("function", "namespace", &["m1"], &[("x", "i1")]),
+];
+
+/// tests whose names are operator symbols are only reachable through select/reject
+const SYMBOL_TESTS: [&str; 6] = ["==", "!=", "<", "<=", ">", ">="];
+
+/// substitutes for one operand: undefined, silent undefined, none, containers holding an undefined
+const SUBST: &[(&str, &str)] = &[
+    ("u", "u"),
+    ("model", "(1 if b0)"),
+    ("none", "none"),
+    ("lu", "[i1, u]"),
+    ("mu", "{'k': u}"),
+    ("au", "a.b"),
+];
+
+fn call_src(bi: &B, args: &[String], kwargs: &[(String, String)]) -> String {
+    let mut rest: Vec<String> = vec![];
+    let (recv, pos) = match bi.kind {
+        "function" => (None, args),
+        _ => (Some(args[0].clone()), &args[1..]),
+    };
+    rest.extend(pos.iter().cloned());
+    rest.extend(kwargs.iter().map(|(k, v)| format!("{}={}", k, v)));
+    let call = if rest.is_empty() && bi.kind != "function" { String::new() } else { format!("({})", rest.join(", ")) };
+    match bi.kind {
+        "filter" => format!("[{{{{ {}|{}{} }}}}]", recv.unwrap(), bi.name, call),
+        "test" => format!("[{{{{ {} is {}{} }}}}]", recv.unwrap(), bi.name, call),
+        _ => format!("[{{{{ {}{} }}}}]", bi.name, call),
+    }
+}
+
+fn gen_calls(tier: &str, f: &mut dyn FnMut(String, String)) {
+    for bi in BUILTINS {
+        let args: Vec<String> = bi.args.iter().map(|s| s.to_string()).collect();
+        let kw: Vec<(String, String)> = bi.kwargs.iter().map(|(k, v)| (k.to_string(), v.to_string())).collect();
+        let npos = args.len();
+        let n = npos + kw.len();
+        // the good call, with and without kwargs
+        f(format!("{}:{}:good", bi.kind, bi.name), call_src(bi, &args, &[]));
+        if !kw.is_empty() {
+            f(format!("{}:{}:good+kw", bi.kind, bi.name), call_src(bi, &args, &kw));
+        }
+        let put = |slots: &[(usize, &str)], with_kw: bool| -> String {
+            let mut a = args.clone();
+            let mut k = kw.clone();
+            for (p, s) in slots {
+                if *p < npos { a[*p] = s.to_string() } else { k[*p - npos].1 = s.to_string() }
+            }
+            // kwargs are only passed when one of them is substituted (or on request)
+            let k_used: Vec<(String, String)> = if with_kw { k } else {
+                k.into_iter().enumerate().filter(|(i, _)| slots.iter().any(|(p, _)| *p == npos + *i)).map(|(_, x)| x).collect()
+            };
+            call_src(bi, &a, &k_used)
+        };
+        for p in 0..n {
+            for (sn, se) in SUBST {
+                f(format!("{}:{}:arg{}={}", bi.kind, bi.name, p, sn), put(&[(p, se)], false));
+                if !kw.is_empty() && p < npos {
+                    f(format!("{}:{}:arg{}={}+kw", bi.kind, bi.name, p, sn), put(&[(p, se)], true));
+                }
+            }
+            // dropping trailing positional arguments (shorter arity) with the substitute at p
+            if p < npos {
+                for cut in (p + 1)..npos {
+                    let mut a = args[..cut].to_vec();
+                    for (sn, se) in &SUBST[..2] {
+                        a[p] = se.to_string();
+                        if bi.kind != "function" || !a.is_empty() {
+                            f(format!("{}:{}:arity{}:arg{}={}", bi.kind, bi.name, cut, p, sn), call_src(bi, &a, &[]));
+                        }
+                    }
+                }
+            }
+        }
+        // pairs of positions
+        let pair_subst: &[(&str, &str)] = if tier == "thorough" { SUBST } else { &SUBST[..2] };
+        for p in 0..n {
+            for q in (p + 1)..n {
+                for (sn, se) in pair_subst {
+                    for (tn, te) in pair_subst {
+                        f(format!("{}:{}:arg{}={},arg{}={}", bi.kind, bi.name, p, sn, q, tn), put(&[(p, se), (q, te)], false));
+                    }
+                }
+            }
+        }
+        // an extra trailing undefined argument
+        let mut a = args.clone();
+        a.push("u".into());
+        f(format!("{}:{}:extra=u", bi.kind, bi.name), call_src(bi, &a, &[]));
+        // statement forms
+        if bi.kind == "filter" {
+            let rest: Vec<String> = args[1..].to_vec();
+            let call = if rest.is_empty() { String::new() } else { format!("({})", rest.join(", ")) };
+            f(format!("filter:{}:block", bi.name), format!("[{{% filter {}{} %}}{{{{ u }}}}x{{% endfilter %}}]", bi.name, call));
+            f(format!("filter:{}:setblock", bi.name), format!("[{{% set y | {}{} %}}{{{{ (1 if b0) }}}}x{{% endset %}}{{{{ y }}}}]", bi.name, call));
+        }
+    }
+}
+
+const POOL: &[&str] = &["u", "(1 if b0)", "none", "z", "i1", "s1", "l1", "m1", "b1", "[u]", "f1"];
+
+fn all_names() -> Vec<(&'static str, &'static str)> {
+    let mut v: Vec<(&str, &str)> = vec![];
+    for bi in BUILTINS {
+        if !v.contains(&(bi.kind, bi.name)) {
+            v.push((bi.kind, bi.name));
+        }
+    }
+    for t in SYMBOL_TESTS {
+        v.push(("test", t));
+    }
+    v
+}
+
+fn gen_sweep(tier: &str, f: &mut dyn FnMut(String, String)) {
+    let max_arity = if tier == "thorough" { 3 } else { 2 };
+    for (kind, name) in all_names() {
+        let symbol = SYMBOL_TESTS.contains(&name);
+        for recv in POOL {
+            let mut arg_lists: Vec<Vec<&str>> = vec![vec![]];
+            let mut frontier: Vec<Vec<&str>> = vec![vec![]];
+            for _ in 0..max_arity {
+                let mut next = vec![];
+                for a in &frontier {
+                    for p in POOL {
+                        let mut x = a.clone();
+                        x.push(*p);
+                        next.push(x);
+                    }
+                }
+                arg_lists.extend(next.iter().cloned());
+                frontier = next;
+            }
+            for args in arg_lists {
+                // quick tier: arity-2 lists only when at least one operand is an undefined of some sort
+                if tier != "thorough" && args.len() == 2 && !args.iter().chain(std::iter::once(recv)).any(|a| ["u", "(1 if b0)", "[u]"].contains(a)) {
+                    continue;
+                }
+                let joined = args.join(", ");
+                let src = if symbol {
+                    // value under test = elements of the receiver list
+                    format!("[{{{{ [{}]|select('{}'{}{})|list }}}}]", recv, name, if args.is_empty() { "" } else { ", " }, joined)
+                } else {
+                    match kind {
+                        "filter" => format!("[{{{{ {}|{}{} }}}}]", recv, name, if args.is_empty() { String::new() } else { format!("({})", joined) }),
+                        "test" => format!("[{{{{ {} is {}{} }}}}]", recv, name, if args.is_empty() { String::new() } else { format!("({})", joined) }),
+                        _ => {
+                            let mut all = vec![*recv];
+                            all.extend(args.iter());
+                            format!("[{{{{ {}({}) }}}}]", name, all.join(", "))
+                        }
+                    }
+                };
+                f(format!("{}:{}:sweep{}", kind, name, args.len()), src);
+            }
+        }
+    }
+}
+
+// ------------------------------------------------------------------------------------------
+// generated programs of the core fragment
+
+struct Gen {
+    rng: Rng,
+    locals: Vec<String>,
+    macros: Vec<(String, usize)>,
+    rich: bool, // also use constructs outside the Lean model (macros, more filters, // and %)
+}
+
+const DEFINED: &[&str] = &["i1", "i2", "z", "s1", "s2", "s3", "b1", "b0", "n", "l1", "l0", "ls", "m1", "a", "lm"];
+const MISSING: &[&str] = &["u", "u2", "w"];
+const ATTRS: &[&str] = &["k", "n", "q", "x", "b", "c", "v", "zz"];
+const MODEL_FILTERS: &[&str] = &["default(1)", "default", "d(s1)", "default(2, true)", "default(2, u)", "int", "string", "bool", "list", "upper", "lower", "length", "count", "attr('k')", "attr('b')", "attr(0)"];
+const RICH_FILTERS: &[&str] = &["first", "last", "join(',')", "join(u)", "sum", "trim", "title", "reverse", "sort", "unique|list", "min", "max", "abs", "float", "items|list", "dictsort", "tojson", "safe", "e", "map(attribute='k')|list", "map('upper')|list", "select|list", "select('odd')|list", "reject('none')|list", "batch(2)|list", "replace('a', u)", "replace(u, 'a')", "capitalize", "round", "selectattr('k')|list", "map(attribute='k', default=u)|list", "indent(2)", "pprint", "lines", "split(',')", "urlencode", "format(u)", "zip(u)|list", "chain(u)|list", "groupby('k')|list"];
+const MODEL_TESTS: &[&str] = &["defined", "undefined", "none", "true", "false", "eq(1)", "ne(u)", "lt(2)", "gt(u)", "in(l1)", "in(u)", "ge(1)", "le(s1)"];
+const RICH_TESTS: &[&str] = &["odd", "even", "string", "number", "sequence", "mapping", "iterable", "divisibleby(2)", "divisibleby(u)", "startingwith('a')", "startingwith(u)", "sameas(u)", "boolean", "integer", "float", "lower", "safe", "filter", "test"];
+
+impl Gen {
+    fn var(&mut self) -> String {
+        let r = self.rng.below(10);
+        if r < 3 {
+            self.rng.pick(MISSING).to_string()
+        } else if r < 5 && !self.locals.is_empty() {
+            let i = self.rng.below(self.locals.len() as u64) as usize;
+            self.locals[i].clone()
+        } else {
+            self.rng.pick(DEFINED).to_string()
+        }
+    }
+
+    fn konst(&mut self) -> String {
+        match self.rng.below(8) {
+            0 => "none".into(),
+            1 => "true".into(),
+            2 => "false".into(),
+            3 => "'ab'".into(),
+            4 => "''".into(),
+            5 => "'k'".into(),
+            _ => format!("{}", self.rng.below(4)),
+        }
+    }
+
+    fn expr(&mut self, d: u32) -> String {
+        if d == 0 || self.rng.chance(1, 5) {
+            return if self.rng.chance(2, 3) { self.var() } else { self.konst() };
+        }
+        let d1 = d - 1;
+        let top = if self.rich { 30 } else { 24 };
+        match self.rng.below(top) {
+            0 | 1 => format!("{}.{}", self.postfix(d1), self.rng.pick(ATTRS)),
+            2 => format!("{}[{}]", self.postfix(d1), self.expr(d1.min(1))),
+            3 => {
+                let (a, b) = (self.bound(), self.bound());
+                if self.rng.chance(1, 3) {
+                    format!("{}[{}:{}:{}]", self.postfix(d1), a, b, self.bound())
+                } else {
+                    format!("{}[{}:{}]", self.postfix(d1), a, b)
+                }
+            }
+            4 => format!("(not {})", self.expr(d1)),
+            5 => format!("({} and {})", self.expr(d1), self.expr(d1)),
+            6 => format!("({} or {})", self.expr(d1), self.expr(d1)),
+            7 => format!("({} if {} else {})", self.expr(d1), self.expr(d1), self.expr(d1)),
+            8 => format!("({} if {})", self.expr(d1), self.expr(d1)),
+            9 | 10 => {
+                let op = *self.rng.pick(&["==", "!=", "<", "<=", ">", ">="]);
+                format!("({} {} {})", self.expr(d1), op, self.expr(d1))
+            }
+            11 => {
+                let op1 = *self.rng.pick(&["==", "<", "<=", ">", "!="]);
+                let op2 = *self.rng.pick(&["<", "<=", ">=", "in", "not in", "=="]);
+                format!("({} {} {} {} {})", self.expr(d1), op1, self.expr(d1), op2, self.expr(d1))
+            }
+            12 => format!("({} in {})", self.expr(d1), self.expr(d1)),
+            13 => format!("({} not in {})", self.expr(d1), self.expr(d1)),
+            14 | 15 => format!("({} ~ {})", self.expr(d1), self.expr(d1)),
+            16 => {
+                let op = *self.rng.pick(&["+", "-", "*"]);
+                format!("({} {} {})", self.expr(d1), op, self.expr(d1))
+            }
+            17 | 18 => {
+                let t = if self.rich && self.rng.chance(1, 2) { *self.rng.pick(RICH_TESTS) } else { *self.rng.pick(MODEL_TESTS) };
+                let neg = if self.rng.chance(1, 4) { "not " } else { "" };
+                format!("({} is {}{})", self.postfix(d1), neg, t)
+            }
+            19 | 20 | 21 => {
+                let f = if self.rich && self.rng.chance(1, 2) { *self.rng.pick(RICH_FILTERS) } else { *self.rng.pick(MODEL_FILTERS) };
+                format!("{}|{}", self.postfix(d1), f)
+            }
+            22 => format!("[{}, {}]", self.expr(d1), self.expr(d1)),
+            23 => format!("{{'k': {}, 'b': {}}}", self.expr(d1), self.expr(d1)),
+            24 => {
+                let op = *self.rng.pick(&["//", "%", "/", "**"]);
+                format!("({} {} {})", self.expr(d1), op, self.expr(d1.min(1)))
+            }
+            25 => format!("(-{})", self.postfix(d1)),
+            26 if !self.macros.is_empty() => {
+                let i = self.rng.below(self.macros.len() as u64) as usize;
+                let (name, n) = self.macros[i].clone();
+                let mut args = vec![];
+                for j in 0..n {
+                    if self.rng.chance(3, 4) {
+                        if self.rng.chance(1, 4) { args.push(format!("p{}={}", j, self.expr(d1))) } else { args.push(self.expr(d1)) }
+                    } else {
+                        break;
+                    }
+                }
+                // keyword after positional only
+                let mut seen_kw = false;
+                args.retain(|a| {
+                    let kw = a.starts_with('p') && a.contains('=') && !a.contains("==");
+                    if seen_kw && !kw { false } else { seen_kw |= kw; true }
+                });
+                format!("{}({})", name, args.join(", "))
+            }
+            27 => format!("range({})|list", self.expr(d1.min(1))),
+            28 => format!("dict(x={}, **{})", self.expr(d1), self.postfix(d1)),
+            _ => format!("{}|default({}, {})", self.postfix(d1), self.expr(d1), self.expr(d1)),
+        }
+    }
+
+    fn bound(&mut self) -> String {
+        match self.rng.below(8) {
+            0 | 1 => String::new(),
+            2 => "u".into(),
+            3 => "none".into(),
+            4 => "-1".into(),
+            5 => "i1".into(),
+            _ => format!("{}", self.rng.below(4)),
+        }
+    }
+
+    /// an expression that can take a postfix (`.x`, `[..]`, `|f`, `is t`)
+    fn postfix(&mut self, d: u32) -> String {
+        let e = self.expr(d);
+        let simple = e.chars().all(|c| c.is_ascii_alphanumeric() || c == '_' || c == '.')
+            || e.ends_with(')') && e.starts_with('(')
+            || e.ends_with(']') && !e.contains(' ');
+        if simple && !e.starts_with('-') && !e.chars().next().map_or(false, |c| c.is_ascii_digit()) { e } else { format!("({})", e) }
+    }
+
+    fn text(&mut self) -> String {
+        (*self.rng.pick(&["", "a", "-", " x ", ";"])).to_string()
+    }
+
+    fn body(&mut self, d: u32, n: u64) -> String {
+        let k = 1 + self.rng.below(n);
+        (0..k).map(|_| self.stmt(d)).collect::<Vec<_>>().join("")
+    }
+
+    fn stmt(&mut self, d: u32) -> String {
+        let ed = 1 + self.rng.below(3) as u32;
+        if d == 0 {
+            return format!("{}{{{{ {} }}}}", self.text(), self.expr(ed));
+        }
+        let top = if self.rich { 14 } else { 11 };
+        match self.rng.below(top) {
+            0 | 1 | 2 => format!("{}{{{{ {} }}}}", self.text(), self.expr(ed)),
+            3 | 4 => {
+                let mut s = format!("{{% if {} %}}{}", self.expr(ed), self.body(d - 1, 2));
+                if self.rng.chance(1, 3) {
+                    s += &format!("{{% elif {} %}}{}", self.expr(ed), self.body(d - 1, 2));
+                }
+                if self.rng.chance(1, 2) {
+                    s += &format!("{{% else %}}{}", self.body(d - 1, 2));
+                }
+                s + "{% endif %}"
+            }
+            5 | 6 => {
+                let v = format!("x{}", self.locals.len());
+                let it = self.expr(ed);
+                let filt = if self.rng.chance(1, 5) { format!(" if {}", self.expr(1)) } else { String::new() };
+                self.locals.push(v.clone());
+                let body = self.body(d - 1, 2);
+                self.locals.pop();
+                let mut s = format!("{{% for {} in {}{} %}}{}", v, it, filt, body);
+                if self.rng.chance(1, 3) {
+                    s += &format!("{{% else %}}{}", self.body(d - 1, 1));
+                }
+                s + "{% endfor %}"
+            }
+            7 | 8 => {
+                let v = format!("y{}", self.rng.below(3));
+                let s = format!("{{% set {} = {} %}}", v, self.expr(ed));
+                if !self.locals.contains(&v) {
+                    self.locals.push(v);
+                }
+                s
+            }
+            9 => {
+                let v = format!("y{}", self.rng.below(3));
+                let s = format!("{{% set {} %}}{}{{% endset %}}", v, self.body(d - 1, 2));
+                if !self.locals.contains(&v) {
+                    self.locals.push(v);
+                }
+                s
+            }
+            10 => {
+                let v = format!("w{}", self.locals.len());
+                let e = self.expr(ed);
+                self.locals.push(v.clone());
+                let body = self.body(d - 1, 2);
+                self.locals.pop();
+                format!("{{% with {} = {} %}}{}{{% endwith %}}", v, e, body)
+            }
+            11 => {
+                let name = format!("mac{}", self.macros.len());
+                let n = self.rng.below(3) as usize;
+                let mut params = vec![];
+                let saved = self.locals.clone();
+                for j in 0..n {
+                    let p = format!("p{}", j);
+                    if self.rng.chance(1, 3) { params.push(format!("{}={}", p, self.konst())) } else { params.push(p.clone()) }
+                    self.locals.push(p);
+                }
+                // defaults after required only
+                let mut seen_def = false;
+                for p in params.iter_mut() {
+                    if p.contains('=') { seen_def = true } else if seen_def { *p = format!("{}=none", p) }
+                }
+                let body = self.body(d - 1, 2);
+                self.locals = saved;
+                self.macros.push((name.clone(), n));
+                format!("{{% macro {}({}) %}}{}{{% endmacro %}}", name, params.join(", "), body)
+            }
+            12 => {
+                let f = *self.rng.pick(&["upper", "default('d', true)", "trim", "length", "int", "list|length", "replace('a', u)"]);
+                format!("{{% filter {} %}}{}{{% endfilter %}}", f, self.body(d - 1, 2))
+            }
+            _ => {
+                let v = format!("x{}", self.locals.len());
+                let it = self.expr(ed);
+                self.locals.push(v.clone());
+                let e = self.expr(1);
+                self.locals.pop();
+                format!("{{% for {} in {} %}}{{{{ loop.index }}}}{{{{ loop.cycle({}, 1) }}}}{{% if loop.changed({}) %}}c{{% endif %}}{{% endfor %}}", v, it, e, v)
+            }
+        }
+    }
+
+    fn program(&mut self) -> String {
+        self.locals.clear();
+        self.macros.clear();
+        let d = 1 + self.rng.below(3) as u32;
+        self.body(d, 4)
+    }
+}
+
+// ------------------------------------------------------------------------------------------
 
 fn main() {
     quiet_panics();
     let args: Vec<String> = std::env::args().collect();
-    for src in &args[2..] {
-        let rs: Vec<String> = MODES.iter().map(|(_, m)| render(*m, src)).collect();
-        println!("{}\t{}", src, rs.join("\t"));
+    let cmd = args.get(1).map(|s| s.as_str()).unwrap_or("");
+    let envs = mk_envs();
+    let stdout = std::io::stdout();
+    let mut w = std::io::BufWriter::new(stdout.lock());
+    match cmd {
+        "names" => {
+            for (k, n) in all_names() {
+                writeln!(w, "{}\t{}", k, n).unwrap();
+            }
+        }
+        "one" => {
+            let stream = args.get(2).map(|s| s.as_str()).unwrap_or("prog");
+            let src = args.get(3).cloned().unwrap_or_default();
+            let small = matches!(stream, "site" | "fmt" | "prog");
+            let ctx = if small { ctx_small() } else { ctx_big() };
+            emit(&mut w, &envs, stream, 0, "replay", &src, &ctx, small);
+        }
+        "gen" => {
+            let tier = args.get(2).map(|s| s.as_str()).unwrap_or("quick").to_string();
+            let small = ctx_small();
+            let big = ctx_big();
+            let mut id = 0usize;
+            for (class, src, expect) in SITES {
+                emit(&mut w, &envs, "site", id, &format!("{}:{}", class, hx(expect)), src, &small, true);
+                id += 1;
+            }
+            for (class, src, expect) in SITES {
+                emit(&mut w, &envs, "fmt", id, &format!("{}:{}", class, hx(expect)), src, &small, true);
+                id += 1;
+            }
+            let mut calls: Vec<(String, String)> = vec![];
+            gen_calls(&tier, &mut |label, src| calls.push((label, src)));
+            for (label, src) in &calls {
+                emit(&mut w, &envs, "call", id, label, src, &big, false);
+                id += 1;
+            }
+            let mut sweep: Vec<(String, String)> = vec![];
+            gen_sweep(&tier, &mut |label, src| sweep.push((label, src)));
+            for (label, src) in &sweep {
+                emit(&mut w, &envs, "sweep", id, label, src, &big, false);
+                id += 1;
+            }
+            let n_model = if tier == "thorough" { 30000 } else { 1500 };
+            let n_rich = if tier == "thorough" { 30000 } else { 1500 };
+            let mut g = Gen { rng: Rng::new(seed_from_env()), locals: vec![], macros: vec![], rich: false };
+            for i in 0..(n_model + n_rich) {
+                g.rich = i >= n_model;
+                let src = g.program();
+                emit(&mut w, &envs, "prog", id, if g.rich { "rich" } else { "core" }, &src, &small, true);
+                id += 1;
+            }
+        }
+        _ => {
+            eprintln!("usage: c12 gen <quick|thorough> | one <stream> <template> | names");
+            std::process::exit(2);
+        }
     }
 }
